@@ -251,8 +251,10 @@ def oracle(run, o, case):
     """the property on the real code: parse(encode(o)) == withDefaults(o); second trip is the identity"""
     try:
         xml0 = o.tocimxml().toxml()
-    except Exception as e:  # not accepted for transmission: nothing is claimed
-        run.count('oracle:not_sendable:' + type(e).__name__)
+    except Exception as e:
+        # the object was built through pywbem's own constructors, i.e. pywbem accepted it: it must be encodable
+        run.violate({'kind': 'accepted_object_cannot_be_encoded', 'exc': type(e).__name__, 'obj': type(o).__name__},
+                    case, {'exc': repr(e)[:300]})
         return
     T = cimproto.Tables()
     want = canon(with_defaults(cimproto.obj_to_json(o, T)))
